@@ -543,3 +543,120 @@ Proof.
   destruct (estep (e, since) o) as [e' since'] eqn:E. cbn [fst snd] in *.
   apply IH; assumption.
 Qed.
+
+(* ====================================================================================================
+   C09 on the whole input domain of encode(): packets whose payload is EMPTY (or absent) included.
+   Such packets open frames and consume counters without adding a message; the counter / identity statement does not
+   need the packing specification, only that every frame carries the batch version and a message type in range.
+   ==================================================================================================== *)
+Definition fr_tagged (v : Z) (f : frame) : Prop := fr_ver f = v /\ 0 <= fr_type f < 256.
+Definition est_tagged (v : Z) (s : est) : Prop := es_ver s = v /\ 0 <= es_type s < 256 /\ Forall (fr_tagged v) (es_frames s).
+
+Lemma newf_tagged cap v s : est_tagged v s -> est_tagged v (newf cap s).
+Proof. intros (Hv & Ht & HF). unfold est_tagged, newf. cbn. repeat split; try assumption; try lia. constructor; [split; assumption|exact HF]. Qed.
+Lemma add_item_tagged v i s l : est_tagged v s -> est_tagged v (add_item i s l).
+Proof.
+  intros (Hv & Ht & HF). unfold add_item. destruct (es_frames s) as [|f fs] eqn:E; [unfold est_tagged; rewrite E; auto|].
+  inversion HF as [|? ? Hf Hfs]; subst. unfold est_tagged. cbn. repeat split; try assumption; try lia. constructor; [exact Hf|exact Hfs].
+Qed.
+Lemma close_tagged v s : est_tagged v s -> est_tagged v (close s).
+Proof. intros H. exact H. Qed.
+
+Lemma cloop_tagged cap v p L seg : forall fuel pos k s, est_tagged v s -> est_tagged v (cloop cap fuel p L seg pos k s).
+Proof.
+  induction fuel as [|fuel IH]; intros pos k s H; cbn [cloop]; [exact H|].
+  destruct (pos <? L); [|exact H]. apply IH.
+  set (s1 := if es_left s <? 16 then newf cap s else s).
+  assert (H1 : est_tagged v s1) by (subst s1; destruct (es_left s <? 16); [apply newf_tagged|]; exact H).
+  match goal with |- est_tagged v (if ?c then close ?x else ?y) => destruct c; [apply close_tagged|]; apply add_item_tagged; exact H1 end.
+Qed.
+
+Lemma cput_tagged cap v s p : p_ver p = v -> 1 <= v < 256 ->
+  Forall (fr_tagged v) (es_frames s) -> (es_frames s <> [] -> es_ver s = v /\ 0 <= es_type s < 256) ->
+  est_tagged v (cput cap s p) /\ es_frames (cput cap s p) <> [].
+Proof.
+  intros Hp Hv HF Hne. unfold cput.
+  set (s1 := match es_frames s with [] => set_type cap s p | _ => if es_type s =? p_mt p then s else set_type cap s p end).
+  assert (Hst : est_tagged v (set_type cap s p) /\ es_frames (set_type cap s p) <> []).
+  { unfold set_type. split; [|unfold newf; cbn; discriminate]. apply newf_tagged. unfold est_tagged. cbn. pose proof (p_mt_range p). auto. }
+  assert (H1 : est_tagged v s1 /\ es_frames s1 <> []).
+  { subst s1. destruct (es_frames s) as [|f fs] eqn:E; [exact Hst|].
+    destruct (es_type s =? p_mt p); [|exact Hst].
+    assert (Hn : f :: fs <> []) by discriminate. destruct (Hne Hn) as (Hv' & Ht'). split; [|rewrite E; exact Hn].
+    unfold est_tagged. rewrite E. auto. }
+  destruct H1 as [T1 N1].
+  set (s2 := if es_left s1 <? 16 + p_len p then (if es_left s1 =? cap then s1 else newf cap s1) else s1).
+  assert (H2 : est_tagged v s2 /\ es_frames s2 <> []).
+  { subst s2. destruct (es_left s1 <? 16 + p_len p); [|auto]. destruct (es_left s1 =? cap); [auto|].
+    split; [apply newf_tagged; exact T1|unfold newf; cbn; discriminate]. }
+  destruct H2 as [T2 N2]. split; [apply cloop_tagged; exact T2|].
+  (* frames are never removed *)
+  assert (G : forall fuel pos k seg s0, es_frames s0 <> [] -> es_frames (cloop cap fuel p (p_len p) seg pos k s0) <> []).
+  { induction fuel as [|fuel IH]; intros pos k seg s0 H0; cbn [cloop]; [exact H0|]. destruct (pos <? p_len p); [|exact H0]. apply IH.
+    set (s1' := if es_left s0 <? 16 then newf cap s0 else s0).
+    assert (N : es_frames s1' <> []) by (subst s1'; destruct (es_left s0 <? 16); [unfold newf; cbn; discriminate|exact H0]).
+    match goal with |- es_frames (if ?c then close ?x else ?y) <> [] => destruct c; unfold close, add_item; cbn [es_frames]; destruct (es_frames s1'); [contradiction|discriminate|contradiction|discriminate] end. }
+  apply G. exact N2.
+Qed.
+
+Lemma enc_struct_tagged cap v b : 1 <= v < 256 -> Forall (fun p => p_ver p = v) b -> Forall (fr_tagged v) (enc_struct cap b).
+Proof.
+  intros Hv Hb. unfold enc_struct. apply Forall_rev.
+  assert (G : forall b s, Forall (fun p => p_ver p = v) b -> Forall (fr_tagged v) (es_frames s) ->
+              (es_frames s <> [] -> es_ver s = v /\ 0 <= es_type s < 256) -> Forall (fr_tagged v) (es_frames (fold_left (cput cap) b s))).
+  { induction b0 as [|p b0 IH]; intros s Hb0 HF Hne; [exact HF|]. inversion Hb0 as [|? ? Hp Hb']; subst. cbn [fold_left].
+    destruct (cput_tagged cap (p_ver p) s p eq_refl Hv HF Hne) as [(V & T & F) N]. apply IH; auto. }
+  apply G; [exact Hb|constructor|]. cbn. congruence.
+Qed.
+
+Definition op_ok_any (o : eop) : Prop :=
+  match o with
+  | OSetDev d => 0 <= d < 65536
+  | OSetStream s => 0 <= s < 256
+  | ORestart => True
+  | OEncode b minb maxb => exists v, 1 <= v < 256 /\ Forall (fun p => p_ver p = v) b
+  end.
+
+Lemma estep_ok_any e since o : enc_ok e -> since_ok e since -> op_ok_any o ->
+  enc_ok (fst (estep (e, since) o)) /\ since_ok (fst (estep (e, since) o)) (snd (estep (e, since) o)).
+Proof.
+  intros (Hd & Hs & Hq) (Hseq & Hall) Ho.
+  destruct o as [d|s| |b minb maxb]; cbn [op_ok_any] in Ho; cbn [estep fst snd].
+  - split; [unfold enc_ok, enc_set_dev; cbn; lia|]. split; [reflexivity|]. intros i Hi. cbn in Hi. lia.
+  - split; [unfold enc_ok, enc_set_stream; cbn; lia|]. split; [reflexivity|]. intros i Hi. cbn in Hi. lia.
+  - split; [unfold enc_ok, enc_restart; cbn; lia|]. split; [reflexivity|]. intros i Hi. cbn in Hi. lia.
+  - destruct Ho as (v & Hv & Hb).
+    unfold encode. cbn [fst snd].
+    set (fs := enc_struct (maxb - 8) b).
+    pose proof (enc_struct_tagged (maxb - 8) v b Hv Hb) as HF. fold fs in HF.
+    split.
+    + unfold enc_ok. cbn [e_dev e_stream e_seq]. pose proof (Z.mod_pos_bound (e_seq e + zlen fs) 65536). lia.
+    + split.
+      * cbn [e_seq]. rewrite zlen_app. unfold zlen at 3. rewrite length_ser_frames. fold (zlen fs).
+        rewrite Hseq. rewrite Zplus_mod_idemp_l. reflexivity.
+      * intros i Hi. cbn [e_dev e_stream].
+        rewrite app_length, length_ser_frames in Hi.
+        destruct (Nat.lt_ge_cases i (length since)) as [Hlt|Hge].
+        { rewrite app_nth1 by exact Hlt. apply Hall. exact Hlt. }
+        rewrite app_nth2 by exact Hge.
+        rewrite (nth_ser_frames fs minb (e_dev e) (e_stream e) (e_seq e) (i - length since) {| fr_type := 0; fr_ver := 0; fr_items := [] |} []) by lia.
+        assert (Hin : In (nth (i - length since) fs {| fr_type := 0; fr_ver := 0; fr_items := [] |}) fs) by (apply nth_In; lia).
+        rewrite Forall_forall in HF. destruct (HF _ Hin) as (Fv & Hty).
+        rewrite ser_frame_header; [|rewrite Fv; lia|lia|exact Hty|lia|apply Z.mod_pos_bound; lia].
+        cbn [f_seq f_dev f_stream f_ver]. rewrite Fv. split; [|split; [reflexivity|split; [reflexivity|lia]]].
+        rewrite Hseq.
+        replace (zlen since mod 65536 + 1 + Z.of_nat (i - length since)) with (zlen since mod 65536 + (1 + Z.of_nat (i - length since))) by lia.
+        rewrite Zplus_mod_idemp_l. f_equal. unfold zlen. lia.
+Qed.
+
+(* every history, every batch (empty payloads, payload-less packets, any frame sizes - even below the documented minimum of 25) *)
+Theorem history_counters_any : forall ops e since,
+  enc_ok e -> since_ok e since -> Forall op_ok_any ops ->
+  let r := fold_left estep ops (e, since) in enc_ok (fst r) /\ since_ok (fst r) (snd r).
+Proof.
+  induction ops as [|o ops IH]; intros e since He Hs Ho; [cbn; auto|].
+  inversion Ho as [|? ? Ho1 Ho2]; subst. cbn [fold_left].
+  destruct (estep_ok_any e since o He Hs Ho1) as [He' Hs'].
+  destruct (estep (e, since) o) as [e' since'] eqn:E. cbn [fst snd] in *.
+  apply IH; assumption.
+Qed.
